@@ -173,3 +173,17 @@ package ice
 //@ enumerate C11 calls ice.(*Agent).onConnectionStateChange in nowhere
 //@ enumerate C11 calls ice.(*Agent).onSelectedCandidatePairChange in nowhere
 //@ enumerate C11 calls ice.(*handlerNotifier).EnqueueCandidate in (*Agent).addCandidate, (*Agent).addRemotePassiveTCPCandidate, (*Agent).setGatheringState
+
+// Every candidate of a cycle carries that cycle's ufrag: setCandidateExtensions adds the extension
+// "ufrag" = the agent's local ufrag, and AddExtension refuses nothing but an empty key or an unknown TCP type,
+// so the ufrag extension is stored whatever characters the ufrag consists of.
+//@ func (*candidateBase).AddExtension
+//@   props C11 C16
+//@   opt nosafety
+//@   loop 1 invariant not-found-so-far: rangeindex + 1 <= len(c.extensions) && c.extensions == old(c.extensions) && forall j int :: 0 <= j && j <= rangeindex ==> c.extensions[j].Key != ext.Key
+//@   ensures only-an-empty-key-or-an-unknown-tcp-type-is-refused: ext.Key != "" && ext.Key != "tcptype" ==> result == nil
+//@   ensures an-accepted-extension-is-stored-with-its-value: ext.Key != "" && ext.Key != "tcptype" ==> exists j int :: 0 <= j && j < len(c.extensions) && c.extensions[j].Key == ext.Key && c.extensions[j].Value == ext.Value
+//@ func (*Agent).setCandidateExtensions
+//@   props C11
+//@   opt nosafety
+//@   site call AddExtension#1 assert adds-the-ufrag-of-the-agent: recv == cand && arg0.Key == "ufrag" && arg0.Value == a.localUfrag
